@@ -22,7 +22,7 @@ REAL = ["pyvsc (all of src/vsc)", "PyBoolector"]
 STUB = ["user code (generated)", "stdout (sink)"]
 ASSUMPTIONS = ["soft bodies and guards use shapes whose lowering C01 validates",
                "ties the property leaves open (softs of different class blocks) are accepted in any order"]
-REQUIRED_NONZERO = {"*": ["judged_calls", "conflict_calls", "guarded_softs", "inline_softs",
+REQUIRED_NONZERO = {"*": ["cb_toggles", "judged_calls", "conflict_calls", "guarded_softs", "inline_softs",
                           "repeat_calls", "hard_unsat_calls"]}
 
 
